@@ -67,6 +67,7 @@ class Sched:
         self.timeout_bias = timeout_bias
         self.decisions = 0
         self.taken: list[int] = []              # the full schedule actually followed (replayable)
+        self.branching: list[int] = []          # number of enabled alternatives at each decision
         self.now = 0.0
         self.threads: list[LThread] = []
         self.by_ident: dict[int, LThread] = {}
@@ -198,6 +199,7 @@ class Sched:
                 else:
                     idx = self.rng.randrange(len(cands))
             self.taken.append(idx)
+            self.branching.append(len(cands))
             th, alt, _ = cands[idx]
             if not self.timed:
                 self.now += self.eps
